@@ -142,6 +142,25 @@ BYTES_LITS = ["b''", "b'ab'", 'b"it\'s"', "b'q\"q'", "b'\\x00\\xff'", "b'a=\\'b'
 NUM_LITS = ["0", "1", "2", "42", "10**2", "3.14", "1e10", "1e999", "2j", "0x1f", "1_000", "0.0", "7"]
 
 
+# Valid expressions on which CPython has a remark (a SyntaxWarning): from the tokenizer, hence already in `ast.parse` — an
+# escape sequence unknown to Python in a non-raw literal, a number glued to a keyword — or from the compiler only (`is`
+# with a literal, a literal that is called or subscripted, a missing comma). They are programs like the others: the
+# harness never turns a warning into an error; it silences them (below), since the generated programs are not to be fixed.
+WARN_EXPRS = ['"\\d+"', "'C:\\path'", 'b"\\q"', 'f"\\d{x}"', '"\\("', "'\\.\\w+$'", "(1if x else 2)", "[1for x in y]",
+              "(0x1if x else 2)", "(x is 1)", '(x is not "a")', '"a"()', "1[0]", "[[1, 2] [3]]", "[(1, 2) (3)]"]
+WARN_STMTS = ['assert (x, "msg")', 'import re\nm = re.findall("\\d+", text)', "path = 'C:\\path\\to'"]
+WARN_SEEDS = [
+    'import re\nm = re.findall("\\d+", text)\n',
+    "x = 1if y else 2\n",
+    "def f(p='C:\\path'):\n    return b\"\\q\"\n",
+    'if x is 1:\n    assert (x, "msg")\n',
+    's = f"\\d{x}"\nt = [0x1for z in s]\n',
+]
+import warnings  # noqa: E402
+
+warnings.filterwarnings("ignore", category=SyntaxWarning)
+
+
 class Gen:
     """Random mostly-valid programs. `adv` = probability of drawing from the adversarial pools."""
 
@@ -167,6 +186,8 @@ class Gen:
 
     def atom(self):
         p = self.r.random()
+        if p < 0.03:
+            return self.r.choice(WARN_EXPRS)
         if p < 0.35:
             return self.ident()
         if p < 0.55:
@@ -307,7 +328,25 @@ class Gen:
             return self.string() + " " + self.string()  # implicit concatenation
         if k == 25:
             return f"(-{self.r.choice(NUM_LITS[:9])})"
+        if k == 26:
+            return self.twins(d)
         return self.atom()
+
+    def twins(self, d):
+        """Two DIFFERENT expression nodes that one source-like rendering would confuse, side by side in one program:
+        a replacement field `{e}` of an f-string (a FormattedValue, not a stand-alone expression) and the set display
+        `{e}`; `{a, b}` in an f-string (a tuple) and the set of that tuple; a field with the format spec ` b` and the
+        dictionary display `{a: b}`. The specification gives them different `_hash` values (different structures)."""
+        e = self.r.choice([self.ident(), f"{self.ident()}({self.ident()})", f"{self.ident()} + {self.ident()}",
+                           f"{self.ident()}.{self.ident()}", f"{self.ident()}[0]", self.r.choice(NUM_LITS[:4])])
+        a, b = self.ident(), self.ident()
+        return self.r.choice([
+            f"({{{e}}}, f\"{{{e}}}\")",
+            f"(f\"{{{e}}}\", {{{e}}})",
+            f"[{{({a}, {b})}}, f\"{{{a}, {b}}}\"]",
+            f"({{{a}: {b}}}, f\"{{{a}: {b}}}\")",
+            f"{{{e}}}.union(f\"x{{{e}}}y\")",
+        ])
 
     def params(self, d, annotations=True):
         def p(name, default=False):
